@@ -465,6 +465,71 @@ PRE = [[], [1], [2], [4], [2, 4], [3]]
 PRE_THOROUGH = PRE + [[5], [5, 2]]
 
 
+def run_c12_probes(tier, seed, verdict, cov, cases, d):
+    """Conformance of the cache probe with the design model: every probe of the cached searches (entry found,
+    remaining depth, window) with what the node did next is judged by TLC with ProbeOutcome of TTProbe.tla -
+    the rule used at label e1a of Search.tla."""
+    parts = max(1, min(NCPU - 2, 12))
+    cap = 25000 if tier == 'quick' else 250000
+    rnd = random.Random(seed * 7 + 1)
+    pool = [c for c in cases if c['pre'] or c['depth'] == 4] + [c for c in cases if not c['pre'] and c['depth'] == 3][:200]
+    rnd.shuffle(pool)
+    chunks = [pool[i::parts] for i in range(parts)]
+    chunks = [c for c in chunks if c]
+
+    def rec(i):
+        cp = os.path.join(d, 'probe-cases-%d.ndjson' % i)
+        write_cases(cp, chunks[i])
+        out = os.path.join(d, 'probe-%02d.ndjson' % i)
+        p = run_harness(['probe-trace', '--cases', cp, '--out', out, '--cap', cap], timeout=6000)
+        return out, json.loads(p.stdout.strip().split('\n')[-1])
+    with cf.ThreadPoolExecutor(max_workers=len(chunks)) as ex:
+        outs = list(ex.map(rec, range(len(chunks))))
+    with cf.ThreadPoolExecutor(max_workers=len(chunks)) as ex:
+        results = list(ex.map(lambda o: validate_search(o[0], 'PROBE', big=tier != 'quick'), outs))
+    judged = 0
+    for (f, info), r in zip(outs, results):
+        if r['status'] == 'error':
+            log(r.get('detail', '')[-3000:])
+            raise ToolError('SearchTrace (PROBE) failed to run on %s' % f)
+        cov['states'] = cov.get('states', 0) + max(1, r.get('states', 0))
+        if r['status'] == 'accept':
+            cov['traces_validated_against_impl'] = cov.get('traces_validated_against_impl', 0) + 1
+            judged += r['nums'][1]
+            if r['nums'][1] != info['probes']:
+                raise ToolError('PROBE: %d probes recorded, %d judged in %s' % (info['probes'], r['nums'][1], f))
+        else:
+            ev = read_events(f, r['line'] + 1)
+            head = [e for e in ev if e.get('ev') == 'psearch'][-1]
+            case = [c for c in pool if c['id'] == head['id']][0]
+            sig = {'kind': 'probe-rule', 'fen': case['fen'], 'pre': case['pre'], 'depth': case['depth'], 'fails': r['fails']}
+            verdict.report(sig, {'how': 'a transposition-table probe of the real search is not an outcome of ProbeOutcome (TTProbe.tla / Search.tla e1a)',
+                                 'probe': ev[r['line'] - 1], 'then': ev[r['line']] if len(ev) > r['line'] else None,
+                                 'search': head})
+    cov['probes_judged'] = judged
+    cov['probe_cases'] = sum(i['cases'] for _, i in outs)
+    if judged < 100:
+        raise ToolError('vacuity: only %d cache probes recorded' % judged)
+    if not verdict.violations:
+        # self-test: change the window a node went on with after a probe
+        f = outs[0][0]
+        lines = open(f).read().strip().split('\n')
+        for i, x in enumerate(lines):
+            e = json.loads(x)
+            if e['ev'] == 'probed':
+                e['beta'] -= 1
+                lines[i] = json.dumps(e)
+                cp = os.path.join(d, 'selftest-probe.ndjson')
+                open(cp, 'w').write('\n'.join(lines) + '\n')
+                r = validate_search(cp, 'PROBE')
+                if r['status'] != 'reject' or r['line'] != i:
+                    raise ToolError('self-test failed: altered window after a probe accepted (%s)' % r)
+                cov['selftest_probe'] = 'window after a probe altered in the recorded trace: rejected with %s' % r['fails']
+                break
+        else:
+            raise ToolError('self-test: no probed event')
+
+
 def run_c12(tier, seed, verdict, cov):
     d = fresh_dir('c12-%d' % os.getpid())
     npos = 200 if tier == 'quick' else 1500
@@ -539,6 +604,7 @@ def run_c12(tier, seed, verdict, cov):
     cov['samples'] = [{'fen': c['fen'], 'pre': c['pre'], 'depth': c['depth']} for c in cases[:3]]
     if applicable < 2:
         raise ToolError('vacuity: fewer than 2 applicable (position, cache history, depth) cases')
+    run_c12_probes(tier, seed, verdict, cov, cases, d)
     # self-test: replace the chosen move of an applicable mate-in-1 case by a non-mating one
     if not verdict.violations:
         done = False
